@@ -77,6 +77,7 @@ namespace pika::detail {
                 return false;
             }
 
+            PIKA_VERIF_POINT(21, this);
             bool not_empty = !queue_.empty();
             ctx.resume();
             return not_empty;
@@ -106,6 +107,7 @@ namespace pika::detail {
             auto ctx = qe.ctx_;
             qe.ctx_.reset();
             queue.pop_front();
+            PIKA_VERIF_POINT(22, this);
             ctx.resume();
         }
 
@@ -133,6 +135,7 @@ namespace pika::detail {
         {
             // suspend this thread
             ::pika::detail::unlock_guard<std::unique_lock<mutex_type>> ul(lock);
+            PIKA_VERIF_POINT(20, this);
             this_ctx.suspend();
         }
 
@@ -155,6 +158,7 @@ namespace pika::detail {
         {
             // suspend this thread
             ::pika::detail::unlock_guard<std::unique_lock<mutex_type>> ul(lock);
+            PIKA_VERIF_POINT(23, this);
             this_ctx.sleep_until(abs_time.value());
         }
 
